@@ -44,7 +44,9 @@ type fdef struct {
 }
 
 var schemaFields = map[string][]fdef{
-	"Query": {{"as", "A", true, ""}, {"a", "A", false, "i"}, {"us", "U", true, ""}, {"u1", "U", false, ""}, {"bs", "B", true, ""}, {"n", "Int", false, ""}},
+	"Query": {{"as", "A", true, ""}, {"a", "A", false, "i"}, {"us", "U", true, ""}, {"u1", "U", false, ""}, {"bs", "B", true, ""}, {"n", "Int", false, ""}, {"ds", "D", true, ""}},
+	"Mutation": {{"touchA", "A", false, "i"}},
+	"D":     {{"id", "Int", false, ""}, {"tags", "String", true, ""}, {"v", "Int", false, ""}},
 	"A":     {{"id", "Int", false, ""}, {"name", "String", false, ""}, {"tag", "String", false, "x"}, {"score", "Int", false, ""}, {"b", "B", false, ""}, {"bs", "B", true, ""}, {"u", "U", false, ""}},
 	"B":     {{"id", "Int", false, ""}, {"val", "Int", false, ""}, {"a", "A", false, ""}, {"cs", "C", true, ""}, {"label", "String", false, "p"}},
 	"C":     {{"id", "Int", false, ""}, {"w", "Int", false, ""}},
@@ -59,9 +61,10 @@ func fieldDef(typ, name string) fdef {
 	panic("no field " + typ + "." + name)
 }
 
-func isObj(t string) bool { return t == "A" || t == "B" || t == "C" || t == "U" }
+func isObj(t string) bool { return t == "A" || t == "B" || t == "C" || t == "U" || t == "D" }
 
 type gen struct {
+	noD    bool // the federated schema has no D type
 	c      *runner.Ctx
 	w      *world
 	named  []*qfrag // named fragment definitions
@@ -199,6 +202,9 @@ func (g *gen) genSelWith(typ string, depth int, plain bool) *qsel {
 	var f fdef
 	for tries := 0; ; tries++ {
 		f = fields[g.c.Choose(len(fields), "field")]
+		if g.noD && f.typ == "D" {
+			f = fields[0]
+		}
 		if !isObj(f.typ) || depth < 4 || tries > 8 {
 			break
 		}
@@ -389,7 +395,7 @@ func (e *evaluator) objectSels(typ string, id int64, sels []*qsel, p []string) i
 		}
 		out[k] = e.field(typ, id, first, merged, mergedUnion, path(p, k))
 	}
-	if typ != "Query" {
+	if typ != "Query" && typ != "Mutation" {
 		out["__key"] = id
 	}
 	return out
@@ -400,13 +406,13 @@ func (e *evaluator) field(typ string, id int64, s *qsel, merged []*qsel, unionSe
 	w := e.w
 	logical := typ + "." + s.name
 	failID := id
-	if typ == "Query" {
+	if typ == "Query" || typ == "Mutation" {
 		failID = 0
-		if s.name == "a" {
+		if s.name == "a" || s.name == "touchA" {
 			failID = s.argV
 		}
 	}
-	if e.touched != nil && s.name != "id" && s.name != "name" && s.name != "val" && logical != "Query.n" {
+	if e.touched != nil && s.name != "id" && s.name != "name" && s.name != "val" && s.name != "tags" && logical != "Query.n" {
 		e.touched[fmt.Sprintf("%s/%d", logical, failID)] = true
 	}
 	if f, ok := w.fail[fmt.Sprintf("%s/%d", logical, failID)]; ok {
@@ -452,13 +458,29 @@ func (e *evaluator) field(typ string, id int64, s *qsel, merged []*qsel, unionSe
 		return int64(42)
 	case "Query.as":
 		return list("A", w.rootAs)
-	case "Query.a":
+	case "Query.a", "Mutation.touchA":
 		if s.argV < 0 || int(s.argV) >= w.nA {
 			return nil
 		}
 		return one("A", int(s.argV))
 	case "Query.bs":
 		return list("B", w.rootBs)
+	case "Query.ds":
+		out := []interface{}{}
+		for i, idx := range w.rootDs {
+			out = append(out, e.objectSels("D", w.ds[idx].ID, merged, path(p, fmt.Sprint(i))))
+		}
+		return out
+	case "D.id":
+		return id
+	case "D.tags":
+		out := []interface{}{}
+		for _, t := range w.ds[id-400].Tags {
+			out = append(out, t)
+		}
+		return out
+	case "D.v":
+		return w.vVal(id)
 	case "Query.us":
 		out := []interface{}{}
 		for i, r := range w.rootUs {
